@@ -112,3 +112,53 @@ VARIANTS += [
  V("c29-b2-rangekey-iter-truncated-to-other-bounds", "C29", "C29.B2", "sstable/reader.go",
    "		i = keyspan.Truncate(\n			r.Comparer.Compare, i,\n			base.UserKeyBoundsFromInternal(env.Virtual.Lower, env.Virtual.Upper),\n		)\n	}\n	return i, nil\n}\n\n// noReadHandle", "		i = keyspan.Truncate(\n			r.Comparer.Compare, i,\n			base.UserKeyBoundsFromInternal(env.InternalBounds.Smallest(), env.InternalBounds.Largest()),\n		)\n	}\n	return i, nil\n}\n\n// noReadHandle"),
 ]
+# C09 (range-key masking: state-machine clauses)
+VARIANTS += [
+ V("c09-m1-filter-suffix-sent-only-for-first-span", "C09", "C09.M1", "range_keys.go",
+   "	if m.maskSpan != nil && m.parent.opts.RangeKeyMasking.Filter != nil {", "	if m.maskSpan != nil && m.parent.opts.RangeKeyMasking.Filter != nil && !m.parent.rangeKey.stale {"),
+ V("c09-m1-suffix-changed-after-filter-update", "C09", "C09.M1", "range_keys.go",
+   "		if err != nil {\n			m.parent.err = err\n		}\n	}\n	// If no span is active, we leave the inner block-property filter configured", "		if err != nil {\n			m.parent.err = err\n		}\n		m.maskActiveSuffix = m.maskActiveSuffix[:len(m.maskActiveSuffix):len(m.maskActiveSuffix)]\n	}\n	// If no span is active, we leave the inner block-property filter configured"),
+ V("c09-m2-filter-consulted-without-active-mask", "C09", "C09.M2", "range_keys.go",
+   "func (m *rangeKeyMasking) Intersects(prop []byte) (bool, error) {\n	if m.maskSpan == nil {", "func (m *rangeKeyMasking) Intersects(prop []byte) (bool, error) {\n	if m.maskSpan == nil && len(m.maskActiveSuffix) == 0 {"),
+ V("c09-m3-point-skipped-without-active-mask", "C09", "C09.M3", "range_keys.go",
+   "	if m.maskSpan == nil {\n		// No range key is currently acting as a mask, so don't skip.\n		return false\n	}", "	if m.maskSpan == nil && len(m.maskActiveSuffix) == 0 {\n		// No range key is currently acting as a mask, so don't skip.\n		return false\n	}"),
+]
+# C33 (merging iterator: tombstone visibility and level coverage)
+VARIANTS += [
+ V("c33-t1-next-entry-deleted-by-invisible-tombstone", "C33", "C33.T1", "merging_iter.go",
+   "		if l.tombstone.VisibleAt(m.snapshot) && m.heap.cmp(l.tombstone.Start, item.iterKV.K.UserKey) <= 0 {", "		if m.heap.cmp(l.tombstone.Start, item.iterKV.K.UserKey) <= 0 {"),
+ V("c33-t1-prev-entry-covered-at-other-seqnum", "C33", "C33.T1", "merging_iter.go",
+   "			if l.tombstone.CoversAt(m.snapshot, item.iterKV.SeqNum()) {\n				if err := m.prevEntry(item); err != nil {", "			if l.tombstone.CoversAt(base.SeqNumMax, item.iterKV.SeqNum()) {\n				if err := m.prevEntry(item); err != nil {"),
+ V("c33-t1-seekge-skips-past-invisible-tombstone", "C33", "C33.T1", "merging_iter.go",
+   "			if l.tombstone != nil && l.tombstone.VisibleAt(m.snapshot) && m.heap.cmp(l.tombstone.Start, key) <= 0 {", "			if l.tombstone != nil && m.heap.cmp(l.tombstone.Start, key) <= 0 {"),
+ V("c33-t1-seeklt-skips-past-invisible-tombstone", "C33", "C33.T1", "merging_iter.go",
+   "			if l.tombstone != nil && l.tombstone.VisibleAt(m.snapshot) &&\n				m.heap.cmp(key, l.tombstone.End) <= 0 {", "			if l.tombstone != nil &&\n				m.heap.cmp(key, l.tombstone.End) <= 0 {"),
+ V("c33-l1-last-skips-levels-without-rangedels", "C33", "C33.L1", "merging_iter.go",
+   "		l := &m.levels[i]\n		l.iterKV = l.iter.Last()", "		l := &m.levels[i]\n		if l.rangeDelIter == nil && i > 0 && m.levels[i-1].iterKV != nil {\n			continue\n		}\n		l.iterKV = l.iter.Last()"),
+ V("c33-l1-heap-ignores-some-levels", "C33", "C33.L1", "merging_iter.go",
+   "	for i := range m.levels {\n		if l := &m.levels[i]; l.iterKV != nil {\n			m.heap.items = append(", "	for i := range m.levels {\n		if m.levels[i].tombstone != nil {\n			continue\n		}\n		if l := &m.levels[i]; l.iterKV != nil {\n			m.heap.items = append("),
+]
+VARIANTS += [
+ V("c29-b3-two-level-prefix-seek-not-clamped", "C29", "C29.B3", "sstable/reader_iter_two_lvl.go",
+   "		if i.secondLevel.cmp(key, i.secondLevel.lower) < 0 {\n			key = i.secondLevel.lower\n		}\n	}\n	// If there's a maximum suffix property configured", "		_ = key\n	}\n	// If there's a maximum suffix property configured"),
+ V("c29-b3-single-level-seeklt-not-clamped", "C29", "C29.B3", "sstable/reader_iter_single_lvl.go",
+   "		cmp := i.cmp(key, i.upper)\n		// key == i.upper is fine. We'll do the right thing and return the\n		// first internal key with user key < key.\n		if cmp > 0 {\n			// Return the last key in the virtual sstable.", "		cmp := i.cmp(key, i.lower)\n		// key == i.upper is fine. We'll do the right thing and return the\n		// first internal key with user key < key.\n		if cmp > 0 {\n			// Return the last key in the virtual sstable."),
+]
+VARIANTS += [
+ V("c15-n1-excise-bounds-ignore-read-error", "C15", "C43.N1", "excise.go",
+   "		} else if err := iters.Point().Error(); err != nil {\n			// A nil KV may indicate an error rather than the absence of point keys;\n			// treating it as the latter would drop the remaining point keys.\n			return err\n		}", "		}"),
+]
+VARIANTS += [
+ V("c33-t1-covers-without-snapshot", "C33", "C33.T1", "merging_iter.go",
+   "			if l.tombstone.CoversAt(m.snapshot, item.iterKV.SeqNum()) {\n				if err := m.nextEntry(item, nil /* succKey */); err != nil {", "			if l.tombstone.Covers(item.iterKV.SeqNum()) {\n				if err := m.nextEntry(item, nil /* succKey */); err != nil {"),
+]
+VARIANTS += [
+ V("c09-m4-upper-bound-compared-by-prefix", "C09", "C09.M4", "range_keys.go",
+   "	return m.cmp(m.maskSpan.End, key) > 0", "	return m.cmp(m.maskSpan.End, key[:m.split(key)]) > 0"),
+]
+VARIANTS += [
+ V("c34-p2-waiter-drops-read-turn-token", "C34", "C34.P2", "internal/cache/read_shard.go",
+   "			// e.mu, and take the turn. So try to actually get the turn by trying\n			// again in the loop.\n", "			// e.mu, and take the turn. So try to actually get the turn by trying\n			// again in the loop.\n			if err := ctx.Err(); err != nil {\n				return nil, 0, err\n			}\n"),
+ V("c42-t1-waiter-drops-read-turn-token", "C42", "C42.T1", "internal/cache/read_shard.go",
+   "			// e.mu, and take the turn. So try to actually get the turn by trying\n			// again in the loop.\n", "			// e.mu, and take the turn. So try to actually get the turn by trying\n			// again in the loop.\n			if err := ctx.Err(); err != nil {\n				return nil, 0, err\n			}\n"),
+]
